@@ -166,3 +166,18 @@ Section TreeShape.
   Qed.
   End WithContract.
 End TreeShape.
+
+(* non-vacuity: units of horizon 2 with zero marginal cost satisfy the contract, and a two-level tree over them is well formed *)
+Section Example.
+  Context {A : Type} `{Num A}.
+  Definition ex_ops : leafops A unit :=
+    {| l_rows := fun _ => 1%nat; l_n := fun _ => 2%nat; l_bounds := fun _ => [(n0, n1); (n0, n1)];
+       l_cost := fun _ _ _ => n0; l_deriv := fun _ _ _ => [n0; n0]; l_hess := fun _ _ => [[n0; n0]; [n0; n0]];
+       l_cons := fun _ => []; l_conduit := fun _ _ => tt |}.
+  Definition ex_tree : gdev A unit :=
+    DSet "root" [Leaf "a" tt; DSet "in" [Leaf "b" tt; MF "m" tt ["e"; "h"]%string] None] None.
+  Lemma ex_contract : leaf_contract ex_ops.
+  Proof. repeat split; try reflexivity; repeat constructor. Qed.
+  Lemma ex_tree_ok : wf_len ex_ops ex_tree /\ rows ex_ops ex_tree = 4%nat /\ dlen ex_ops ex_tree = 2%nat.
+  Proof. cbn. repeat split. Qed.
+End Example.
